@@ -100,6 +100,28 @@ def check(repo: Repo, rep: Report) -> None:
                     rep.ob("F4-drain-fan-out", g_, f"{g_.qual}: `while {short(nd.test, 30)}: {coll}.pop().on_*`", okw,
                            f"{g_.qual}: the drain loop does not run exactly while `{coll}` is non-empty: open windows never receive the terminal "
                            f"notification (or the loop pops from an empty collection)")
+    # group_join (window_toggle / buffer_toggle): errors are fanned out over the map that holds the window subjects
+    rep.rule("F5-subject-map-fan-out", "group_join: every loop that delivers an error / completion to the open windows iterates the map the window subjects are stored in", floor=3)
+    gj_ = repo.fn("reactivex/operators/_groupjoin.py", "group_join_.group_join.subscribe")
+    subj_maps = set()
+    for g_ in gj_.walk():
+        if not g_.is_func:
+            continue
+        subj_locals = {u(n_.targets[0] if isinstance(n_, ast.Assign) else n_.target) for n_ in g_.direct_nodes() if isinstance(n_, (ast.Assign, ast.AnnAssign)) and n_.value is not None
+                       and isinstance(n_.value, ast.Call) and call_name(n_.value) == "Subject"}
+        for n_ in g_.direct_nodes():
+            if isinstance(n_, ast.Assign) and isinstance(n_.targets[0], ast.Subscript) and isinstance(n_.value, ast.Name) and n_.value.id in subj_locals:
+                subj_maps.add(u(n_.targets[0].value))
+    for g_ in gj_.walk():
+        if not g_.is_func:
+            continue
+        for nd in g_.direct_nodes():
+            if isinstance(nd, ast.For) and isinstance(nd.target, ast.Name) and any(isinstance(c, ast.Call) and isinstance(c.func, ast.Attribute) and c.func.attr in ("on_error", "on_completed")
+                                                                                   and u(c.func.value) == nd.target.id for b_ in nd.body for c in ast.walk(b_)):
+                base = [x.id for x in ast.walk(nd.iter) if isinstance(x, ast.Name)]
+                rep.ob("F5-subject-map-fan-out", g_, f"{g_.qual}: `for {nd.target.id} in {short(nd.iter, 30)}` terminates the windows in {sorted(subj_maps)}", bool(subj_maps) and any(b in subj_maps for b in base),
+                       f"{g_.qual} fans the terminal notification out over `{u(nd.iter)}`, which is not the map the window subjects live in: the open "
+                       f"windows are left without a terminal notification")
     # window_with_time_or_count: every rollover (by time, by count) starts a new window generation, and the first window has a timer
     rep.rule("T2-generation", "window_with_time_or_count: each rollover advances the window id before arming the next timer; the first window's timer is armed in subscribe", floor=3)
     wt_ = repo.fn("reactivex/operators/_windowwithtimeorcount.py", "window_with_time_or_count_.subscribe")
@@ -118,6 +140,19 @@ def check(repo: Repo, rep: Report) -> None:
             opens = [x for x in sites(g_) if isinstance(x.node, ast.Call) and u(x.node.func) == f"{wt_.params[0]}.on_next"]
             rep.ob("T2-generation", g_, f"{g_.qual}: `{wid} += 1` on the path that opens the next window", bool(bump) and bool(opens) and bump[0].ctx.branch == opens[0].ctx.branch and bump[0].index < opens[0].index,
                    f"{g_.qual} opens the next window without advancing the window id first")
+    if len(ids_) == 1 and ct_ is not None and ct_.child("action") is not None:
+        act_ = ct_.child("action")
+        wid = next(iter(ids_))
+        cap_ = ct_.params[0] if ct_.params else "?"
+        opens_ = [x for x in sites(act_) if isinstance(x.node, ast.Call) and u(x.node.func) == f"{wt_.params[0]}.on_next"]
+        okg = False
+        for x in opens_:
+            for e, p_ in x.ctx.guards:
+                if isinstance(e, ast.Compare) and len(e.ops) == 1 and {cell_name(e.left), cell_name(e.comparators[0])} == {cap_, wid}:
+                    okg = (isinstance(e.ops[0], ast.NotEq) and not p_) or (isinstance(e.ops[0], ast.Eq) and p_)
+        rep.ob("T2-generation", act_, f"timer action proceeds only if `{cap_} == {wid}` (equality of generations)", okg,
+               "the timer action's stale guard does not compare the generation it was armed for with the current one for equality: a timer "
+               "armed for a window already closed by the count still rotates the next window")
     first = [x for x in sites(wt_) if isinstance(x.node, ast.Call) and isinstance(x.node.func, ast.Name) and ct_ is not None and x.node.func.id == ct_.name and not x.ctx.branch]
     rep.ob("T2-generation", wt_, "subscribe arms the timer of the first window", bool(first),
            "window_with_time_or_count never arms a timer for its first window: that window is closed by the count only, however long it lives")
